@@ -195,6 +195,8 @@ namespace chaiscript {
         return true;
       }
 
+      // a file shorter than the byte order mark leaves the stream in a failed state; recover before rewinding
+      infile.clear();
       infile.seekg(0);
 
       return false;
